@@ -7,6 +7,7 @@ it with chosen spellings/separators; the oracle reader must recover exactly the 
 cross-checks generator and oracle against each other on every generated string.
 """
 import gc
+import importlib.util
 import math
 import random
 import re
@@ -34,6 +35,13 @@ def bounded(name, props, replay=None):
         return fn
 
     return deco
+
+# svgelements tries `import numpy` / `from scipy...` on every point()/length() call; in this interpreter both are
+# absent and every failing import walks sys.path (170 us per call). A None entry in sys.modules makes the same
+# ImportError immediate. Only done when the modules really are absent (the configuration under test).
+for _m in ("numpy", "scipy", "scipy.special", "scipy.integrate"):
+    if _m not in sys.modules and importlib.util.find_spec(_m.split(".")[0]) is None:
+        sys.modules[_m] = None
 
 LETTERS = "MmZzLlHhVvCcSsQqTtAa"
 NNUM = {"M": 2, "L": 2, "T": 2, "H": 1, "V": 1, "C": 6, "S": 4, "Q": 4, "A": 7, "Z": 0}
@@ -63,6 +71,11 @@ EXPLAIN = {
                                 "after it is the first error; render-up-to-the-error keeps the Close.",
     "number-overflow": "a number whose value overflows to infinity is retained as an inf coordinate; later "
                        "serialisation prints INF/NAN (unparseable) and lengths/bboxes become inf/nan.",
+    "subpath-without-move": "Subpath.d() of a subpath that directly follows a close (no moveto of its own) starts "
+                            "with a drawing command, so its start point / close target / smooth control are "
+                            "not written; re-parsing gives a start-less segment or raises.",
+    "startless-smooth-repeated": "T/t (S/s) repeated with no current point: the first T stores control None and "
+                                    "the second reflects it (None.reflected_across).",
     "startless": "a leniently accepted path that does not begin with a move keeps a first segment with start "
                  "None; measuring/bounding it afterwards raises.",
     "lone-close": "'z' as the whole path (no moveto) is retained as Close(None, None); bbox() of it raises.",
@@ -117,27 +130,34 @@ class time_limit:
 
 
 class Agg:
-    """failures aggregated by key: count + smallest witness"""
+    """failures aggregated by key: count + smallest witness (+ smallest witness of up to 6 named variants)"""
 
     def __init__(self):
         self.by = {}
 
-    def add(self, key, witness, expected, got, size=None):
+    def add(self, key, witness, expected, got, size=None, variant=None):
         size = len(str(witness)) if size is None else size
         e = self.by.get(key)
         if e is None:
-            self.by[key] = {"key": key, "count": 1, "input": witness, "expected": expected, "got": got,
-                            "_size": size, "explanation": explain(key)}
+            e = self.by[key] = {"key": key, "count": 1, "input": witness, "expected": expected, "got": got,
+                                "_size": size, "explanation": explain(key)}
         else:
             e["count"] += 1
             if size < e["_size"]:
                 e.update(input=witness, expected=expected, got=got, _size=size)
+        if variant is not None:
+            vs = e.setdefault("variants", {})
+            if variant in vs or len(vs) < 6:
+                if variant not in vs or size < vs[variant][0]:
+                    vs[variant] = (size, witness)
 
     def out(self):
         res = []
         for k in sorted(self.by):
             e = dict(self.by[k])
             e.pop("_size")
+            if "variants" in e:
+                e["variants"] = {v: w for v, (s, w) in sorted(e["variants"].items())}
             res.append(e)
         return res
 
@@ -438,8 +458,6 @@ def spell_number(rng, mag, nonneg=False):
             t = re.sub(r"([eE][-+])0+(\d)", r"\1\2", t)
             if rng.random() < 0.5:
                 t = t.replace("e+", "e").replace("E+", "E")
-        if re.match(r"^-?\d[eE]", t) is None and "." not in t.split("e")[0].split("E")[0]:
-            pass
     elif style == 4:
         t = "%.*f" % (rng.randint(1, 3), v / max(mag, 1e-300) * 0.9)  # |v| < 1 : leading-dot spelling
         t = t.replace("0.", ".", 1) if t.startswith(("0.", "-0.")) else t
@@ -566,6 +584,24 @@ def c01_one(mod, s, items=None):
     if r is None:
         r = check_chain(lib)
     return r
+
+
+def c01_variant(s, r):
+    """sub-class of a C01 failure (which command after which), for a witness per variant"""
+    if r is None or r[1] is None:
+        return None
+    try:
+        ora = G.interp(G.parse(s))
+    except ValueError:
+        return None
+    i = r[1]
+    cmd = ora[i].get("cmd", "?")
+    prev = ora[i - 1].get("cmd", "?") if i else "^"
+    if r[0] == "smooth-after-other-degree":
+        return "%s-after-%s" % (cmd.upper(), prev.upper())
+    if r[0] == "arc-zero-radius-not-line":
+        return "rx-zero" if ora[i]["rx"] == 0 else "ry-zero"
+    return None
 
 
 def split_pieces(s, cuts):
@@ -735,9 +771,17 @@ def run_c01(mod, tier, seed):
             if key not in agg.by or agg.by[key]["count"] < 3:
                 w = minimise_valid(s, lambda c, key=key: (c01_one(mod, c) or (None,))[0] == key)
                 r2 = c01_one(mod, w)
-                agg.add(key, {"s": w}, r2[2], r2[3], size=len(w))
+                agg.add(key, {"s": w}, r2[2], r2[3], size=len(w), variant=c01_variant(w, r2))
             else:
-                agg.by[key]["count"] += 1
+                var = c01_variant(s, r)
+                vs = agg.by[key].get("variants", {})
+                if var is not None and var not in vs and len(vs) < 6:
+                    w = minimise_valid(s, lambda c, key=key, var=var: c01_variant(c, c01_one(mod, c)) == var
+                                       and (c01_one(mod, c) or (None,))[0] == key)
+                    r2 = c01_one(mod, w)
+                    agg.add(key, {"s": w}, r2[2], r2[3], size=len(w), variant=var)
+                else:
+                    agg.by[key]["count"] += 1
         if do_split:
             bounds = G.command_boundaries(s)
             if bounds:
@@ -764,6 +808,15 @@ def run_c01(mod, tier, seed):
         one(s, cmds, 1 if n_ex % 10 == 0 else 0)
         if n_ex % 5000 == 1:
             samples.append(s)
+    # a few hand-written strings (clear witnesses of the classic cases)
+    for s in ("M0,0 Q1,2 3,0 S5,5 6,0", "M0,0 C1,2 3,4 5,0 T6,0", "M0,0 Q1,2 3,0 T5,0 S5,5 6,0", "M0,0 C1,2 3,4 5,0 S6,6 7,0 T8,0",
+              "M0,0 L1,1 S5,5 6,0", "M0,0 L1,1 T6,0", "M0,0 L1,1 z S5,5 6,0", "M1,1 z T6,0", "M0,0 A5,5 0 0,1 5,5 S5,9 6,0",
+              "m1,2 3,4 5,6", "M1,2 m3,4", "M0,0 L5,0 5,5 z l1,1", "M0,0 C1,2 3,4 z", "M0,0 h5 v5 z a5,5 0 0110,10"):
+        items = G.parse(s)
+        evaluations += 1
+        r = c01_one(mod, s, items)
+        if r is not None:
+            agg.add(r[0], {"s": s}, r[2], r[3], size=len(s), variant=c01_variant(s, r))
     # seeded random part
     n_rand = 5000 if tier == "quick" else 50000
     done = 0
@@ -935,6 +988,8 @@ def c09_exception_key(p, exc):
         return "%s-without-number-%s" % (cb[0], e)
     if cb == "arc":
         return ("arc-no-current-point-%s" if nocur else "arc-incomplete-%s") % e
+    if cb in ("smooth_quad", "smooth_cubic") and len(p) and type(p[0]).__name__ != "Move":
+        return "startless-smooth-repeated-%s" % e
     if cb.startswith("_"):
         cb = "lexer" + cb
     return "%s-%s%s" % (cb, "no-current-point-" if nocur else "", e)
@@ -1082,6 +1137,7 @@ def minimise_tokens(s, pred, budget=120):
 
 
 SPECIAL_C09 = [
+    "t 1,1 2,2", "T 1,1 2,2", "t 1,1 t 2,2", "s 1,1 2,2 3,3 4,4", "S 1,1 2,2 S 3,3 4,4", "L 1,1 T 2,2", "Q 1,1 2,2 T 3,3",
     "M0,0 A1z", "M0,0 A 1 2 z", "M0,0 A 1 2 3 z", "M0,0 A 1 2 3 0 z", "M0,0 a1z", "M0,0 a 1 2 3 0 z",
     "", " ", ",", "z", "Z", "zz", "M", "m", "M 1", "M 1,", "M 1,2,", "M,1,2", "M 1,,2", "M 1 2 3", "M0,0 z 5", "M0,0 L5,5 5,0 z 5 5",
     "M0,0 z z 1", "M0,0 Z1,1", "M 1e999,0 L 1,1", "M0,0 L 1e400 5", "M 0,0 L 1e-999,1", "M0,0 L 5,5 . 5", "M0,0 L 5 5.",
@@ -1362,32 +1418,26 @@ def c07_compare(p, q, tol_abs, skip_first_start=False):
 
 def c07_classify(mod, p, dstr, r, s, bad):
     i, kind, detail, err = bad
-    if re.search(r"\.\d*[1-9]?E[-+]?\d*[1-9]?(?![0-9])", dstr) and re.search(r"\d\.\d+E[-+]?\d(?![0-9])", dstr):
-        # a mantissa with '.' whose exponent lost its trailing zero(s)? confirm by re-formatting
-        for m in re.finditer(r"[-+]?\d\.\d+E[-+]\d+", dstr):
-            pass
     if kind == "Arc":
         return "arc-radii-%G-precision" if _arc_fixed_by_12_digits(mod, p, i, r, s) else "arc-roundtrip-geometry"
-    if "E-" in dstr or "E+" in dstr:
-        if _exponent_stripped(dstr, p, r):
-            return "exponent-trailing-zero-stripped"
+    if i and kind in ("CubicBezier", "QuadraticBezier") and s is not False:
+        prev = type(list(p)[i - 1]).__name__
+        if prev in ("CubicBezier", "QuadraticBezier") and prev != kind and \
+                re.search(r"[QqTt][^A-DF-Za-df-z]*[Ss]|[CcSs][^A-DF-Za-df-z]*[Tt]", dstr):
+            # d() wrote S after a quadratic (T after a cubic) relying on the SVG rule "control = current
+            # point"; the parser reflects the other-degree control instead
+            return "smooth-after-other-degree-roundtrip"
+    if _exponent_stripped(dstr):
+        return "exponent-trailing-zero-stripped"
     if kind in ("count", "kind"):
         return "roundtrip-%s-differs" % kind
     return "roundtrip-geometry-%s" % kind
 
 
-def _exponent_stripped(dstr, p, r):
-    """does d() contain a number in exponent form whose correct '%.12G' text ends in '0'?"""
-    # recompute every coordinate the writer printed and see whether the stripped form differs in value
-    for seg in p:
-        pass
-    for m in re.finditer(r"[-+]?\d(?:\.\d+)?E[-+]\d+", dstr):
-        txt = m.group(0)
-        # a correctly formatted %.12G exponent has at least two exponent digits
-        if re.search(r"E[-+]\d$", txt):
-            return True
-        # 'E-10' -> 'E-1' is covered above; 'E-100' -> 'E-1' as well
-    return False
+def _exponent_stripped(dstr):
+    """does d() contain a number with a '.' mantissa and a ONE-digit exponent?  '%.12G' always writes at least two
+    exponent digits, so such a token has lost trailing zeros of its exponent ('E-10' -> 'E-1')"""
+    return re.search(r"\d\.\d+E[-+]\d(?![0-9])", dstr) is not None
 
 
 def _arc_fixed_by_12_digits(mod, p, i, r, s):
@@ -1444,28 +1494,57 @@ def c07_one(mod, s, combos=None, subpaths=True):
     if subpaths and n:
         try:
             k = p.count_subpaths()
-            for i in range(k):
-                sp = p.subpath(i)
-                ref = list(sp)
-                for r in (None, True):
+            subs = [p.subpath(i) for i in range(k)]
+        except Exception as e:
+            out.append(("subpath-raises-%s" % type(e).__name__, {"s": s, "op": "subpath"}, "subpaths", repr(e)))
+            subs = []
+        for i, sp in enumerate(subs):
+            ref = list(sp)
+            nomove = type(ref[0]).__name__ != "Move"
+            for r in (None, True):
+                w = {"s": s, "subpath": i, "relative": r}
+                exp = "Path(p.subpath(%d).d(relative=%r)) has the geometry of that subpath" % (i, r)
+                try:
                     dstr = sp.d(relative=r)
                     q = mod.Path(dstr)
-                    bad = c07_compare(ref, list(q), tol, skip_first_start=True)
-                    if bad is not None:
-                        key = c07_classify(mod, mod.Path(*[seg for seg in ref]), dstr, r, None, bad) \
-                            if bad[1] != "Arc" else "arc-radii-%G-precision"
-                        out.append(("subpath-" + key, {"s": s, "subpath": i, "relative": r},
-                                    "Path(p.subpath(%d).d(relative=%r)) has the geometry of that subpath" % (i, r),
-                                    {"d": dstr[:300], "segment": bad[0], "what": bad[2]}))
-        except Exception as e:
-            out.append(("subpath-d-raises-%s" % type(e).__name__, {"s": s, "op": "subpath"},
-                        "Subpath.d() and re-parse succeed", repr(e)))
+                except Exception as e:
+                    key = "subpath-without-move-reparse-raises-%s" if nomove else "subpath-d-raises-%s"
+                    out.append((key % type(e).__name__, w, exp, repr(e)))
+                    continue
+                bad = c07_compare(ref, list(q), tol, skip_first_start=True)
+                if bad is not None:
+                    if bad[1] == "Arc":
+                        key = "subpath-arc-radii-%G-precision"
+                    elif nomove:
+                        # Subpath.d() of a subpath that follows a close without a move of its own starts with a
+                        # drawing command: its start point (and a smooth control / close target) is not written
+                        key = "subpath-without-move-loses-start"
+                    else:
+                        key = "subpath-" + c07_classify(mod, mod.Path(*ref), dstr, r, None, bad)
+                    out.append((key, w, exp, {"d": dstr[:300], "segment": bad[0], "what": bad[2]}))
     return out
+
+
+CURATED_C07 = [
+    "M0,0 A123.456789,50 0 0,1 100,50",          # radii need more than 6 digits
+    "M0,0 A100,50 33.3333333 0,1 100,50",        # rotation needs more than 6 digits
+    "M0,0 A10,10 0 0,1 70,70",                   # radii too small: scaled up to 49.4974746830583
+    "M0,0 A30,30 0 0,1 100,0",                   # scaled up to exactly 50
+    "M0,0 A50,50 0 0,1 100,0",                   # exact half turn
+    "M0,0 A50,50 0 1,0 100,0 A50,50 0 1,0 0,0",  # full circle in two halves
+    "M100000,0 L100000.0000000001,0 L100001,0",  # relative offset 1.0186e-10
+    "M0,0 Q1,2 3,0 C3,0 5,5 6,0",                # control1 == start after a quadratic: written as S with smooth=True
+    "M0,0 C1,2 3,4 5,0 Q5,0 6,0",                # control == start after a cubic: written as T
+    "M0,0 L1,1 z L2,2 z",                        # subpath begun without a move
+    "M0,0 L1,1 z t2,2", "M0,0 L1,1 z a5,5 0 0,1 2,2",
+]
 
 
 def c07_strings(rng, tier):
     """yield (string, tag)"""
-    n = 2200 if tier == "quick" else 30000
+    for s in CURATED_C07:
+        yield s, "curated"
+    n = 2400 if tier == "quick" else 30000
     mags = [1e-3, 1e-2, 1, 10, 100, 1e3, 1e4, 1e5]
     for i in range(n):
         mag = mags[i % len(mags)]
